@@ -20,7 +20,7 @@ THEOREMS_BY_PROP = {
             "DepLogic.M.fromSpecOk_of_lex", "DepLogic.M.pyMergeOk_of_fromSpec", "DepLogic.C02.env0_total",
             "DepLogic.C02.atomFull_good", "DepLogic.C02.atomPvGt_good", "DepLogic.M.pvsem_halfopen",
             "DepLogic.M.render_halfopen", "DepLogic.M.fromClause_short", "DepLogic.C02.atomRevCompat_good", "DepLogic.C02.atomComma_good", "DepLogic.C02.atomKeyword_good",
-            "DepLogic.C02.atomPv3_good", "DepLogic.C02.atomImpl_good", "DepLogic.C02.inexact_never_merged", "DepLogic.C11.reversed_canonical_good"],
+            "DepLogic.C02.atomPv3_good", "DepLogic.C02.atomImpl_good", "DepLogic.C02.inexact_never_merged", "DepLogic.C11.reversed_canonical_good", "DepLogic.C11.guard_lexOne"],
     "C03": ["DepLogic.C03.build_sound", "DepLogic.C03.build_sound_final", "DepLogic.M.sound_all", "DepLogic.M.singleSound"],
     "C07": ["DepLogic.C07.str_empty_any", "DepLogic.C07.items_sem", "DepLogic.C07.reparse_sound", "DepLogic.C07.reparse_sound_final",
             "DepLogic.C07.items_ok", "DepLogic.C07.atom_text", "DepLogic.C07.seq_text", "DepLogic.C07.junction_text", "DepLogic.C07.nested_text", "DepLogic.C07.text_roundtrip_printable", "DepLogic.C07.str_reparse_final", "DepLogic.C07.atomStr_toList", "DepLogic.C07.read_quote", "DepLogic.C07.quote_roundtrip", "DepLogic.C07.quote_shape",
